@@ -37,6 +37,10 @@ type (
 		File string
 		Line int
 		Text string
+
+		// importID is the number of the import statement that spliced
+		// the token into the token list; 0 for a token of the input
+		importID int
 	}
 )
 
@@ -164,17 +168,12 @@ func isNextOnNewLine(t1, t2 Token) bool {
 		return true
 	}
 
-	// TODO:
-	// If the second token is from a different import chain,
-	// we can assume it's from a different line
-	// if len(t1.imports) != len(t2.imports) {
-	// 	return true
-	// }
-	// for i, im := range t1.imports {
-	// 	if im != t2.imports[i] {
-	// 		return true
-	// 	}
-	// }
+	// If the second token was spliced in by a different import
+	// statement, it is on a different line, whatever the line numbers
+	// say (the tokens of a snippet keep those of its definition)
+	if t1.importID != t2.importID {
+		return true
+	}
 
 	// If the first token (incl line breaks) ends
 	// on a line earlier than the next token,
